@@ -57,7 +57,18 @@ def affine_map(dist, n, N=1):
     return k, k_total, draw
 
 
-def check_affine_law(dist, n, logd, rec, what, tol, intrinsic=False, log_transform=False):
+def quad_moments_from_gradient(grad, n):
+    """same as quad_moments but from the object's own gradient (used when the normalised log-density is refused)"""
+    g0 = np.asarray(grad(np.zeros(n)), dtype=float).reshape(-1)
+    H = np.zeros((n, n))
+    for i in range(n):
+        e = np.zeros(n)
+        e[i] = 1.0
+        H[:, i] = g0 - np.asarray(grad(e), dtype=float).reshape(-1)
+    return g0, (H + H.T) / 2
+
+
+def check_affine_law(dist, n, logd, rec, what, tol, intrinsic=False, log_transform=False, moments=None):
     k, k_total, draw = affine_map(dist, n, 1)
     tr = (lambda v: np.log(np.asarray(v, dtype=float))) if log_transform else (lambda v: np.asarray(v, dtype=float))
     s0 = must(lambda: draw(np.zeros(k_total)), f"{what}: sample(1)")
@@ -71,7 +82,7 @@ def check_affine_law(dist, n, logd, rec, what, tol, intrinsic=False, log_transfo
         B[:, i] = tr(draw(e)).reshape(n) - a
     e = np.cos(1.0 + np.arange(k_total))
     require(close(tr(draw(e)).reshape(n), a + B @ e, 1e-8), f"{what}: sample is not an affine function of the normal draws")
-    g0, H = quad_moments(logd, n)
+    g0, H = moments if moments is not None else quad_moments(logd, n)
     C = B @ B.T
     scale = max(1.0, np.abs(H).max())
     if not intrinsic:
@@ -155,10 +166,16 @@ def run_gauss(c, rec):
         tol = 1e-8 if c["sparse_switch"] == "below" else 1e-6
         # the un-normalised log-density may be unavailable (sparse without cholmod): use differences of _logupdf-free logd
         refused, _ = refuses(lambda: d.logd(np.zeros(n)))
+        moments = None
         if refused:
-            rec.count("logd_refused")
-            return
-        check_affine_law(d, n, lambda x: float(np.asarray(d.logd(x)).reshape(-1)[0]), rec, "Gaussian", tol)
+            # sparse full matrices without cholmod: the normalised log-density is refused; its derivative still states the density
+            refused_g, _ = refuses(lambda: d.gradient(np.zeros(n)))
+            if refused_g:
+                rec.count("logd_and_gradient_refused")
+                return
+            rec.count("density_from_gradient")
+            moments = quad_moments_from_gradient(d.gradient, n)
+        check_affine_law(d, n, lambda x: float(np.asarray(d.logd(x)).reshape(-1)[0]), rec, "Gaussian", tol, moments=moments)
         check_shapes_and_stream(d, n, rec, "Gaussian")
         # several draws: column j depends on column j of the normal array only
         k, k_total, draw = affine_map(d, n, 3)
